@@ -497,6 +497,17 @@ func (s *Sim) setup() {
 	if sc.GST > 0 {
 		s.push(&Event{At: sc.GST, Kind: EvPartHeal, Aux: 1})
 	}
+	if sc.WOFlipIdent > 0 {
+		s.after(sc.WOFlipAt, &Event{Kind: EvCustom, Fn: func() {
+			for _, n := range s.nodes {
+				if n.ident == sc.WOFlipIdent-1 && !n.flagWO {
+					n.flagWO = true
+					s.fault("watch_only_flag_set_while_running")
+					s.tracef("%s WATCH-ONLY FLAG SET", n)
+				}
+			}
+		}})
+	}
 }
 
 func (s *Sim) dispatch(ev *Event) {
